@@ -23,7 +23,9 @@ SPEC = {
             "each program is run in sequence and in one block from the same initial state; oracle (implementation only): if every operation "
             "succeeds in sequence, the block returns the same per-operation results and the same full snapshot. "
             "distinct_nontrivial = distinct implementation transcripts; 'all_ok_programs' = programs whose sequence run succeeded.",
-    "not_proved": ["that each real operation is a closure over its Transaction only (code fact; campaign)"],
+    "not_proved": ["that each real operation is a closure over its Transaction only (code fact; campaign) — false for "
+                   "insert_vertex(es)_on_edge, whose is_free test reads committed state (finding D3; the model takes the committed "
+                   "map as an explicit parameter of these kernels, so the theorems apply to every program without them)"],
 }
 
 N_ALLOK = [0]
@@ -102,16 +104,161 @@ def programs(count, rng, mask=7):
     return cases
 
 
+# ---------------------------------------------------------------------------------------------
+# separate stream: kernels with non-transactional reads (scan_tx hit list: cell_insertion/vertices.rs uses
+# `cmap.is_free`) composed with core operations that edit their spare darts in the same program (D3 class)
+# ---------------------------------------------------------------------------------------------
+
+KERNEL_OPS = ("insv", "insvs")
+
+
+def oracle_c08k(case, li):
+    """layout: init, snap S0, ops (k lines), snap S1, init, tx, queued*k, tx-line, snap S2.
+    Both directions: all ops succeed in sequence => same results and map in one block; the sequence first fails at
+    op j => the block returns that error and publishes nothing."""
+    if any(x.startswith("<missing") for x in li):
+        return "driver died"
+    k, ninit = case.meta["k"], case.meta["ninit"]
+    s0 = li[ninit]
+    seq = li[ninit + 1:ninit + 1 + k]
+    s1 = li[ninit + 1 + k]
+    base = ninit + 2 + k + ninit
+    txline = li[base + 1 + k]
+    s2 = li[base + 2 + k]
+    bad = [j for j, x in enumerate(seq) if not (x == "ok" or x.startswith("ok "))]
+    if not bad:
+        N_ALLOK[0] += 1
+        payload = [x[3:] if x.startswith("ok ") else "" for x in seq]
+        want = "tx ok " + " ; ".join(payload)
+        if txline != want:
+            return f"sequence succeeded with results {seq} but the single block returned {txline!r}"
+        if s1 != s2:
+            return f"final maps differ: sequence={s1!r} block={s2!r}"
+        return None
+    j = bad[0]
+    if txline != "tx " + seq[j]:
+        return f"the sequence first fails at op {j} with {seq[j]!r} but the single block returned {txline!r}"
+    if s2 != s0:
+        return "the failed block changed the map"
+    return None
+
+
+def kernel_programs(count, rng, mask=0):
+    cases = []
+    maps = {n: list(gens.wf_maps2(n, with_unused=False)) for n in (3, 4, 5)}
+    for c in range(count):
+        n = rng.choice((3, 4, 4, 5))
+        b0, b1, b2, u = rng.choice(maps[n]) if n < 5 else maps[5][rng.randrange(len(maps[5]))]
+        darts = list(range(1, n + 1))
+        init = [gens.load_line(2, n, mask, [b0, b1, b2], u)] + [f"wv {d} {gens.dy(rng)} {gens.dy(rng)}" for d in darts]
+        e = rng.choice(darts)
+        others = [d for d in darts if d != e]
+        rng.shuffle(others)
+        x, y = others[0], others[1]
+        ops = []
+        for _ in range(rng.randint(1, 2)):
+            t = rng.choice([x, x, y, rng.choice(darts)])
+            o = rng.choice(darts)
+            ops.append(rng.choice([f"link 2 {t} {o}", f"link 1 {t} {o}", f"link 1 {o} {t}", f"unlink 2 {t}", f"unlink 1 {t}",
+                                   f"unsew 2 {t}", f"unsew 1 {t}", f"sew 2 {t} {o}", f"unlink 1 {o}"]))
+        if rng.random() < 0.6:
+            ops.append(f"insv {e} {x} {rng.choice([y, 0])} {rng.choice(['-', '1/4'])}")
+        else:
+            ops.append(f"insvs {e} 2 {x} {rng.choice([y, 0])} 1/2")
+        k = len(ops)
+        lines = init + ["snap"] + ops + ["snap"] + init + ["tx"] + ops + ["endtx", "snap"]
+        cases.append(Case(f"k{c}", lines, oracle="c08k", meta={"sig": "kernel-program", "k": k, "ninit": len(init)}))
+    # the design-round witness and its mirror image
+    w = ["load 2 4 0 0 0 1 0 0 ; 0 2 0 0 0 ; 0 0 0 0 0 ; 0 0 0 0 0", "wv 1 0 0", "wv 2 1 0"]
+    for name, init, ops in (("d3", w, ["link 2 3 4", "insv 1 3 0 -"]),
+                            ("d3m", ["load 2 4 0 0 0 1 0 0 ; 0 2 0 0 0 ; 0 0 0 4 3 ; 0 0 0 0 0", "wv 1 0 0", "wv 2 1 0"],
+                             ["unlink 2 3", "insv 1 3 0 -"])):
+        lines = init + ["snap"] + ops + ["snap"] + init + ["tx"] + ops + ["endtx", "snap"]
+        cases.append(Case(name, lines, oracle="c08k", meta={"sig": "kernel-program", "k": len(ops), "ninit": len(init)}))
+    return cases
+
+
+def oracle_any(case, li):
+    return oracle_c08k(case, li) if case.oracle == "c08k" else oracle_c08(case, li)
+
+
 def run(tier, seed):
     rng = random.Random(seed)
     N_ALLOK[0] = 0
     count = 30000 if tier == "quick" else 400000
     r = hv.campaign(programs(count, rng), oracle_c08)
     r["stats"]["all_ok_programs"] = N_ALLOK[0]
-    res = hv.merge_results([("random straight-line programs, sequence vs one block", r)])
+    rk = hv.campaign(kernel_programs(4000 if tier == "quick" else 40000, rng), oracle_c08k, max_report=30)
+    rk["violations"] = dedupe_k(rk["violations"])
+    res = hv.merge_results([("random straight-line programs, sequence vs one block", r),
+                            ("kernels with non-transactional reads after edits of their spare darts (scan_tx hit list)", rk)])
     res["stats"]["all_ok_programs"] = N_ALLOK[0]
     return res
 
 
+def d3_signature(v):
+    """D3: the program ends with insert_vertex(es)_on_edge; every earlier op has the same outcome in both runs; the
+    kernel call is answered differently in the two runs, at least one answer being `err InvalidDarts …`; and a spare dart handed to the kernel is
+    an argument (or the initial beta image of an argument) of an earlier link/unlink/sew/unsew of the same program.  Re-derived from the raw transcript."""
+    if v.get("kind") != "oracle":
+        return False
+    rp = v.get("replay", {})
+    lines, li = rp.get("input_lines", []), rp.get("impl_output", [])
+    try:
+        txi = lines.index("tx")
+        endi = lines.index("endtx")
+        ops = lines[txi + 1:endi]
+        k = len(ops)
+        ninit = txi - (k + 2)
+        ninit //= 2
+        if lines[ninit] != "snap" or lines[ninit + 1:ninit + 1 + k] != ops:
+            return False
+        seq = li[ninit + 1:ninit + 1 + k]
+        txline = li[endi]
+    except Exception:
+        return False
+    if not ops or ops[-1].split()[0] not in KERNEL_OPS or any(o.split()[0] in KERNEL_OPS for o in ops[:-1]):
+        return False
+    if any(not (x == "ok" or x.startswith("ok ")) for x in seq[:-1]):
+        return False
+    t = ops[-1].split()
+    spares = [int(t[2]), int(t[3])] if t[0] == "insv" else [int(x) for x in t[3:3 + int(t[2])]]
+    touched = set()
+    try:
+        import kern2
+        s0 = kern2.Snap(li[ninit])
+    except Exception:
+        return False
+    for o in ops[:-1]:
+        tt = o.split()
+        if tt[0] in ("link", "unlink", "sew", "unsew"):
+            for x in tt[2:]:
+                x = int(x)
+                touched.add(x)
+                if 0 <= x < s0.n:       # an unlink/unsew also frees the image of its argument
+                    touched.update(s0.b[i][x] for i in range(3))
+    if not (touched & {s for s in spares if s != 0}):
+        return False
+    seq_inv = seq[-1].startswith("err InvalidDarts")
+    blk_inv = txline.startswith("tx err InvalidDarts")
+    blk_ok = txline.startswith("tx ok")
+    differ = (seq[-1] == "ok") != blk_ok or (not blk_ok and txline != "tx " + seq[-1])
+    return differ and (seq_inv or blk_inv)
+
+
+def dedupe_k(violations):
+    seen, out = set(), []
+    for v in violations:
+        key = "D3" if d3_signature(v) else None
+        if key and key in seen:
+            continue
+        seen.add(key)
+        out.append(v)
+    return out
+
+
 def matches(known, v):
+    m = known.get("matcher", {})
+    if m.get("signature") == "kernel-is_free-reads-committed-state":
+        return d3_signature(v)
     return False
